@@ -35,6 +35,10 @@ fn bi(n: &str) -> usize {
 
 const U0: i64 = 1_700_000_000; // 2023-11-14T22:13:20Z: every configured zone has a distinct offset here
 const L0: i64 = 1_700_020_000; // a wall-clock second far from any transition of the configured zones
+/// 2023-03-12T04:20:00Z: two hours before the DST start of the configured rule zone
+/// `AAA4:20BBB,M3.2.0,M11.1.0` (06:20Z) and 70 minutes before that of America/St_Johns; read as a
+/// *wall-clock* time it lies after both gaps, so a lookup in the wrong direction shows the DST offset.
+const U1: i64 = 1_678_594_800;
 
 // ------------------------------------------------------------------------------------------------
 // child side
@@ -295,10 +299,10 @@ fn gen_history(rng: &mut Rng, id: usize, etc: Etc, sources: &[Source], long_budg
     let mut steps = Vec::new();
     let mut longs = 0usize;
     let conv = |rng: &mut Rng, fresh: bool| -> Step {
-        if rng.chance(1, 2) {
-            Step::Conv("U", U0, fresh)
-        } else {
-            Step::Conv("L", L0, fresh)
+        match rng.below(5) {
+            0..=1 => Step::Conv("U", U0, fresh),
+            2..=3 => Step::Conv("L", L0, fresh),
+            _ => Step::Conv("U", U1, fresh),
         }
     };
     let set = |i: usize| -> Step {
